@@ -66,14 +66,27 @@ structure Cfg where
   attrTimeout : Nat := 9
   dirEntryTimeout : Nat := 11
   dirAttrTimeout : Nat := 13
+  /-- capabilities the client does NOT offer at INIT: 1 WRITEBACK_CACHE, 2 ZERO_MESSAGE_OPEN,
+      4 ZERO_MESSAGE_OPENDIR, 8 HANDLE_KILLPRIV_V2 -/
+  nocap : Nat := 0
   deriving Repr, DecidableEq, Inhabited
 
-/-- `PassthroughFs::new` resets conflicting options; `init` turns the runtime switches on when the
-    client offers the capability (the harness offers exactly the configured ones) -/
+/-- is the capability with this bit offered? -/
+def Cfg.offered (c : Cfg) (bit : Nat) : Bool := (c.nocap / bit) % 2 == 0
+
+/-- `PassthroughFs::new` resets conflicting options; `init` turns a runtime switch on when the
+    client offers the capability and — standalone — the option is configured; behind a VFS
+    (`do_import = false`) the offered set is the negotiated one and is honoured whatever the
+    configuration says -/
 def Cfg.effective (c : Cfg) : Cfg :=
   if c.doImport then
-    { c with noOpen := c.noOpen && c.cache == 3, writeback := c.writeback && c.cache != 0 }
-  else c
+    { c with noOpen := c.noOpen && c.cache == 3 && c.offered 2,
+             writeback := c.writeback && c.cache != 0 && c.offered 1,
+             noOpendir := c.noOpendir && c.offered 4,
+             killprivV2 := c.killprivV2 && c.offered 8 }
+  else
+    { c with noOpen := c.offered 2, writeback := c.offered 1, noOpendir := c.offered 4,
+             killprivV2 := c.offered 8 }
 
 /-! ### state -/
 
